@@ -20,6 +20,11 @@ struct Case {
     doc: Node,
     layout: Layout,
     target: Target,
+    /// the value of every later occurrence of a repeated key has been replaced by content that
+    /// cannot be deserialized (a core tag that does not fit, a scalar merge value): only the
+    /// Error and FirstWins clauses are judged - FirstWins must skip such a value unread
+    #[serde(default)]
+    poison: bool,
 }
 
 #[derive(Debug, Deserialize, PartialEq)]
@@ -249,6 +254,9 @@ fn check_case(c: &Case) -> Outcome {
                 (Res::Err(_, _, _, m), Res::Ok(b)) => return Outcome::Fail(format!("FirstWins rejected ({m}); the document with later entries deleted gives {b:?} (text {text:?})")),
                 (Res::Ok(a), Res::Err(_, _, _, m)) => return Outcome::Fail(format!("FirstWins gives {a:?} but the de-duplicated document is rejected: {m} (text {text:?})")),
             }
+            if c.poison {
+                return Outcome::Pass;
+            }
             // --- LastWins delivers every entry in order
             match c.target {
                 Target::ShapeStr => {
@@ -334,12 +342,31 @@ fn key_variants(base: usize, variant: usize) -> Node {
 
 /// one random case from its parts: entries (key identity, key presentation, value), layout bits,
 /// target, placement of the mapping
-fn make_case(es: Vec<(usize, usize, Node)>, lb: u32, target: Target, place: usize) -> Case {
+fn make_case(es: Vec<(usize, usize, Node)>, lb: u32, target: Target, place: usize, poison: bool) -> Case {
     let mut entries: Vec<(Node, Node)> = vec![];
     let struct_keys = ["a", "b", "c", "k", "x", "y"];
     for (base, var, v) in es {
         let k = if target == Target::Struct { s(struct_keys[base % 3]) } else { key_variants(base, var) };
         entries.push((k, v));
+    }
+    let mut poisoned = false;
+    if poison && target != Target::Struct {
+        // replace the value of every later occurrence of a key (written in place) by content
+        // that cannot be read: FirstWins has to skip it as one node without interpreting it
+        const POISON: [fn() -> Node; 4] = [
+            || s("zz").tagged("!!int"),
+            || Node::map(true, vec![(s("<<"), s("5"))]),
+            || Node::seq(true, vec![s("q").tagged("!!float"), Node::map(true, vec![(s("k"), s("1")), (s("k"), s("2"))])]),
+            || Node::scalar("$$", Style::Double).tagged("!!binary"),
+        ];
+        for i in 1..entries.len() {
+            let (before, rest) = entries.split_at_mut(i);
+            let (k, v) = &mut rest[0];
+            if !matches!(k.kind, Kind::Alias(_)) && before.iter().any(|(k0, _)| !matches!(k0.kind, Kind::Alias(_)) && gdoc::same_key(k0, k)) {
+                *v = POISON[(i + lb as usize) % POISON.len()]();
+                poisoned = true;
+            }
+        }
     }
     let m = Node::map(false, entries);
     // definitions used by alias keys / alias values
@@ -361,7 +388,7 @@ fn make_case(es: Vec<(usize, usize, Node)>, lb: u32, target: Target, place: usiz
             _ => Node::seq(false, vec![defs, Node::map(false, vec![(s("o"), Node::seq(false, vec![m]))])]),
         }
     };
-    Case { doc, layout: Layout::from_bits(lb), target }
+    Case { doc, layout: Layout::from_bits(lb), target, poison: poisoned }
 }
 
 struct C04;
@@ -446,7 +473,8 @@ impl Property for C04 {
                 (base, var, v)
             })
             .collect();
-        let c = make_case(es, lb, target, place);
+        let poison = b.below(6) == 0;
+        let c = make_case(es, lb, target, place, poison);
         let nt = nontrivial(&c);
         Some(("fuzz-random", c, nt))
     }
@@ -489,7 +517,7 @@ impl Property for C04 {
                                 idx += 1;
                                 total += 1;
                                 if ctx.mine(idx) {
-                                    let c = Case { doc: doc.clone(), layout: lay.clone(), target };
+                                    let c = Case { doc: doc.clone(), layout: lay.clone(), target, poison: false };
                                     let nt = nontrivial(&c);
                                     ctx.case("exhaustive", &c, nt);
                                 }
@@ -510,7 +538,7 @@ impl Property for C04 {
             prop::sample::select(vec![Target::Untyped, Target::ShapeStr, Target::Struct]),
             0usize..4,
         )
-            .prop_map(|(es, _x, lb, target, place)| make_case(es, lb, target, place));
+            .prop_map(|(es, x, lb, target, place)| make_case(es, lb, target, place, x && lb % 4 == 0));
         ctx.run_strategy("random", 1, ctx.tier.pick(40_000, 500_000), &strat, nontrivial);
     }
 }
